@@ -184,8 +184,94 @@ def rule_X4(ctx) -> None:
                     "forward-reference strings are not resolved in sys.modules[cls.__module__].__dict__: references to aliases imported at the bottom of the generated module do not resolve")
 
 
+def rule_X7(ctx) -> None:
+    """forward references in annotations are resolved against the module namespace only: get_type_hints is given an explicit
+    local namespace (without one, typing falls back to vars(cls), where dataclass field defaults shadow import aliases)"""
+    mod = ctx.repo.mod(M_INIT)
+    fn = mod.func("Message._type_hints")
+    ctx.analysed("Message._type_hints")
+    calls = [c for c in ast.walk(fn) if isinstance(c, ast.Call) and ast.unparse(c.func).split(".")[-1] == "get_type_hints"]
+    if not calls:
+        ctx.inconclusive("X7", "_type_hints:explicit-local-namespace", "get_type_hints call not found", mod.loc(fn))
+        return
+    for c in calls:
+        has_local = len(c.args) >= 3 or any(k.arg == "localns" for k in c.keywords)
+        local = c.args[2] if len(c.args) >= 3 else next((k.value for k in c.keywords if k.arg == "localns"), None)
+        if not has_local or (isinstance(local, ast.Constant) and local.value is None):
+            ctx.refuted("X7", "_type_hints:explicit-local-namespace", ast.unparse(c), mod.loc(c),
+                        f"`{ast.unparse(c)}` passes no local namespace: typing then evaluates the annotation strings with vars(cls) as locals, so a field whose name equals the alias "
+                        "of an imported package (descendant packages are imported under their plain name: `from . import items`) resolves to the field's default object instead of the module",
+                        "message Order { shop.items.Item items = 1; }")
+        elif "vars(" in ast.unparse(local) or "__dict__" in ast.unparse(local) and "module" not in ast.unparse(local):
+            ctx.refuted("X7", "_type_hints:explicit-local-namespace", ast.unparse(local), mod.loc(c), "the class namespace is passed as local namespace: field defaults shadow import aliases")
+        else:
+            ctx.proved("X7", "_type_hints:explicit-local-namespace", mod.loc(c), ast.unparse(local))
+
+
+def rule_X8(ctx) -> None:
+    """class names and reference names of nested types agree: traverse() renames a nested type to <prefix>_<name> and hands
+    exactly that new name down as the prefix of its own nested types (symbolic evaluation of the straight-line renaming code)"""
+    parser = ctx.repo.mod("src/betterproto/plugin/parser.py")
+    tr = parser.func("traverse")
+    ctx.analysed("traverse")
+    inner = next((n for n in ast.walk(tr) if isinstance(n, ast.FunctionDef) and n is not tr), None)
+    loop = next((n for n in ast.walk(inner or tr) if isinstance(n, ast.For)), None)
+    if inner is None or loop is None or not isinstance(loop.target, ast.Tuple):
+        ctx.inconclusive("X8", "traverse:nested-prefix", "renaming loop not recognised", parser.loc(tr))
+        return
+    item = loop.target.elts[1].id if isinstance(loop.target.elts[1], ast.Name) else None
+    prefix_param = inner.args.args[2].arg if len(inner.args.args) >= 3 else "prefix"
+    # symbolic strings: lists of parts, each a literal or one of the symbols P (incoming prefix) / N (the proto name)
+    env = {f"{item}.name": ["N"], prefix_param: ["P"]}
+
+    def ev(e: ast.AST):
+        if isinstance(e, ast.JoinedStr):
+            out = []
+            for v in e.values:
+                if isinstance(v, ast.Constant):
+                    out.append(repr(v.value))
+                else:
+                    r = ev(v.value)
+                    if r is None:
+                        return None
+                    out += r
+            return out
+        if isinstance(e, ast.Constant) and isinstance(e.value, str):
+            return [repr(e.value)]
+        if isinstance(e, (ast.Name, ast.Attribute)):
+            return list(env[ast.unparse(e)]) if ast.unparse(e) in env else None
+        if isinstance(e, ast.BinOp) and isinstance(e.op, ast.Add):
+            a, b = ev(e.left), ev(e.right)
+            return a + b if a is not None and b is not None else None
+        return None
+
+    handed = []
+    for st in loop.body:
+        if isinstance(st, ast.Assign):
+            r = ev(st.value)
+            for t in st.targets:
+                env[ast.unparse(t)] = r if r is not None else ["?"]
+        for c in [c for c in ast.walk(st) if isinstance(c, ast.Call) and isinstance(c.func, ast.Name) and c.func.id == inner.name]:
+            arg = c.args[2] if len(c.args) >= 3 else next((k.value for k in c.keywords if k.arg == prefix_param), None)
+            handed.append((c, ev(arg) if arg is not None else None))
+    new_name = env.get(f"{item}.name")
+    if not handed or new_name is None:
+        ctx.inconclusive("X8", "traverse:nested-prefix", "recursive calls not recognised", parser.loc(tr))
+        return
+    bad = [(c, h) for c, h in handed if h != new_name]
+    if new_name != ["P", "'_'", "N"]:
+        ctx.inconclusive("X8", "traverse:nested-prefix", f"renaming is not <prefix>_<name>: {new_name}", parser.loc(tr))
+    elif bad:
+        c, h = bad[0]
+        ctx.refuted("X8", "traverse:nested-prefix", "".join(h or ["?"]), parser.loc(c),
+                    f"a nested type is renamed to {''.join(new_name)} but its own nested types are given the prefix {''.join(h or ['?'])}: classes of types nested two or more levels deep are "
+                    "emitted under a name (OuterOuterMidLeaf) that differs from the one references to them are compiled to (OuterMidLeaf)", "message Outer { message Mid { message Leaf {} } }")
+    else:
+        ctx.proved("X8", "traverse:nested-prefix", parser.loc(tr), f"{len(handed)} recursive calls hand down {''.join(new_name)}")
+
+
 def run(ctx) -> None:
-    for name, fn in (("X1", template.rule_X1), ("X2", rule_X2), ("X3", rule_X3), ("X4", rule_X4), ("X5", rule_X5), ("X6", rule_X6)):
+    for name, fn in (("X1", template.rule_X1), ("X2", rule_X2), ("X3", rule_X3), ("X4", rule_X4), ("X5", rule_X5), ("X6", rule_X6), ("X7", rule_X7), ("X8", rule_X8)):
         ctx.rules_run.append(name)
         fn(ctx)
     ctx.notes.append("NOT DECIDED: relative-import depth arithmetic, alias collisions, circular import behaviour")
